@@ -27,23 +27,23 @@ HybSeed(bw, a, b) == Ser(<<[k |-> "rle", n |-> 9, v |-> a], [k |-> "bp", vals |-
                            [k |-> "rle", n |-> 0, v |-> b], [k |-> "rle", n |-> 2, v |-> b]>>, bw)
 StrSeed == <<<<97, 98>>, <<>>, <<97, 98, 99, 100>>, <<97>>, <<255, 0>>>>
 NSeeds == 16
-Seed(i) ==
-    CASE i = 1 -> [f |-> "hyb", bw |-> 1, n |-> 27, bytes |-> HybSeed(1, 1, 0)]
-      [] i = 2 -> [f |-> "hyb", bw |-> 3, n |-> 27, bytes |-> HybSeed(3, 7, 2)]
-      [] i = 3 -> [f |-> "hyb", bw |-> 9, n |-> 27, bytes |-> HybSeed(9, 511, 3)]
-      [] i = 4 -> [f |-> "hyb", bw |-> 32, n |-> 10, bytes |-> SerW(<<[k |-> "rle", n |-> 2, v |-> Ones(4)], [k |-> "bp", vals |-> [i \in 1..8 |-> IF i % 2 = 0 THEN Ones(4) ELSE <<1, 0, 0, 128>>]]>>, 32)]
-      [] i = 5 -> [f |-> "lvlp", bw |-> 2, n |-> 27, bytes |-> LET b == HybSeed(2, 3, 1) IN LE(Len(b), 4) \o b \o <<9, 9>>]
-      [] i = 6 -> [f |-> "d32", bw |-> 0, n |-> 2, bytes |-> D!Ser(C!DeltaSeq(3, 4, 0, 2, FromNat(5, 4)), 4, D!StdOpts)]
-      [] i = 7 -> [f |-> "d32", bw |-> 0, n |-> 34, bytes |-> D!Ser(C!DeltaSeq(9, 4, 1, 34, C!MinW(4)), 4, D!StdOpts)]
-      [] i = 8 -> [f |-> "d32", bw |-> 0, n |-> 130, bytes |-> D!Ser(C!DeltaSeq(32, 4, 0, 130, FromNat(5, 4)), 4, [bs |-> 128, m |-> 4, widen |-> 0, unused |-> 255])]
-      [] i = 9 -> [f |-> "d64", bw |-> 0, n |-> 34, bytes |-> D!Ser(C!DeltaSeq(40, 8, 0, 34, FromNat(5, 8)), 8, D!StdOpts)]
-      [] i = 10 -> [f |-> "d64", bw |-> 0, n |-> 3, bytes |-> D!Ser(C!SpecialSeq(8, 0, 3), 8, D!StdOpts)]
-      [] i = 11 -> [f |-> "dlen", bw |-> 0, n |-> 5, bytes |-> DL!Ser(StrSeed, D!StdOpts)]
-      [] i = 12 -> [f |-> "dstr", bw |-> 0, n |-> 5, bytes |-> DS!Ser(StrSeed, D!StdOpts, "max")]
-      [] i = 13 -> [f |-> "dstr", bw |-> 0, n |-> 40, bytes |-> DS!Ser(C!Strs(2, 40), D!StdOpts, "max")]
-      [] i = 14 -> [f |-> "plain6", bw |-> 0, n |-> 5, bytes |-> P!Ser(6, 0, StrSeed)]
-      [] i = 15 -> [f |-> "dictidx", bw |-> 0, n |-> 27, bytes |-> <<3>> \o HybSeed(3, 7, 2)]
-      [] i = 16 -> [f |-> "dictidx", bw |-> 0, n |-> 10, bytes |-> <<32>> \o SerW(<<[k |-> "bp", vals |-> [i \in 1..8 |-> IF i % 2 = 0 THEN Ones(4) ELSE <<1, 0, 0, 128>>]], [k |-> "rle", n |-> 2, v |-> <<0, 0, 0, 128>>]>>, 32)]
+Seed(sx) ==
+    CASE sx = 1 -> [f |-> "hyb", bw |-> 1, n |-> 27, bytes |-> HybSeed(1, 1, 0)]
+      [] sx = 2 -> [f |-> "hyb", bw |-> 3, n |-> 27, bytes |-> HybSeed(3, 7, 2)]
+      [] sx = 3 -> [f |-> "hyb", bw |-> 9, n |-> 27, bytes |-> HybSeed(9, 511, 3)]
+      [] sx = 4 -> [f |-> "hyb", bw |-> 32, n |-> 10, bytes |-> SerW(<<[k |-> "rle", n |-> 2, v |-> Ones(4)], [k |-> "bp", vals |-> [i \in 1..8 |-> IF i % 2 = 0 THEN Ones(4) ELSE <<1, 0, 0, 128>>]]>>, 32)]
+      [] sx = 5 -> [f |-> "lvlp", bw |-> 2, n |-> 27, bytes |-> LET b == HybSeed(2, 3, 1) IN LE(Len(b), 4) \o b \o <<9, 9>>]
+      [] sx = 6 -> [f |-> "d32", bw |-> 0, n |-> 2, bytes |-> D!Ser(C!DeltaSeq(3, 4, 0, 2, FromNat(5, 4)), 4, D!StdOpts)]
+      [] sx = 7 -> [f |-> "d32", bw |-> 0, n |-> 34, bytes |-> D!Ser(C!DeltaSeq(9, 4, 1, 34, C!MinW(4)), 4, D!StdOpts)]
+      [] sx = 8 -> [f |-> "d32", bw |-> 0, n |-> 130, bytes |-> D!Ser(C!DeltaSeq(32, 4, 0, 130, FromNat(5, 4)), 4, [bs |-> 128, m |-> 4, widen |-> 0, unused |-> 255])]
+      [] sx = 9 -> [f |-> "d64", bw |-> 0, n |-> 34, bytes |-> D!Ser(C!DeltaSeq(40, 8, 0, 34, FromNat(5, 8)), 8, D!StdOpts)]
+      [] sx = 10 -> [f |-> "d64", bw |-> 0, n |-> 3, bytes |-> D!Ser(C!SpecialSeq(8, 0, 3), 8, D!StdOpts)]
+      [] sx = 11 -> [f |-> "dlen", bw |-> 0, n |-> 5, bytes |-> DL!Ser(StrSeed, D!StdOpts)]
+      [] sx = 12 -> [f |-> "dstr", bw |-> 0, n |-> 5, bytes |-> DS!Ser(StrSeed, D!StdOpts, "max")]
+      [] sx = 13 -> [f |-> "dstr", bw |-> 0, n |-> 40, bytes |-> DS!Ser(C!Strs(2, 40), D!StdOpts, "max")]
+      [] sx = 14 -> [f |-> "plain6", bw |-> 0, n |-> 5, bytes |-> P!Ser(6, 0, StrSeed)]
+      [] sx = 15 -> [f |-> "dictidx", bw |-> 0, n |-> 27, bytes |-> <<3>> \o HybSeed(3, 7, 2)]
+      [] sx = 16 -> [f |-> "dictidx", bw |-> 0, n |-> 10, bytes |-> <<32>> \o SerW(<<[k |-> "bp", vals |-> [i \in 1..8 |-> IF i % 2 = 0 THEN Ones(4) ELSE <<1, 0, 0, 128>>]], [k |-> "rle", n |-> 2, v |-> <<0, 0, 0, 128>>]>>, 32)]
 
 \* ---- classification: under which readings is the input a valid, complete stream ----
 HybOk(bs, bw) == WellFormed(bs, 1, Len(bs), bw)
@@ -66,6 +66,12 @@ SeedOk(s, bs) ==
       [] s.f = "plain6" -> LET r == P!Parse(6, 0, bs, 1, s.n) IN r.ok /\ r.p = Len(bs) + 1
       [] OTHER -> FALSE        \* dictidx: needs the dictionary, never counted as valid here
 
+\* positions whose byte is replaced: all of them (thorough) or the header region, the tail and every 11th byte
+MutPos(n) == IF Thorough THEN 1..n ELSE {i \in 1..n : i <= 20 \/ i > n - 4 \/ i % 11 = 0}
+\* 4-byte little-endian length prefixes around the true body length n (level blocks)
+LenPrefixes(n) == {LE(x, 4) : x \in {0, 1, n - 1, n, n + 1, n + 2, 255, 65536}}
+               \cup {<<255, 255, 255, 127>>, <<0, 0, 0, 128>>, <<252, 255, 255, 255>>, <<253, 255, 255, 255>>,
+                     <<254, 255, 255, 255>>, <<255, 255, 255, 255>>, <<251, 255, 255, 255>>}
 Init == c = [lvl |-> 0]
 Next ==
     \/ c.lvl = 0 /\ c' \in [lvl : {1}, o : {"alpha"}, b : Alphabet] \cup [lvl : {1}, o : {"mut"}, s : 1..NSeeds]
@@ -76,10 +82,13 @@ Next ==
        /\ LET sd == Seed(c.s)
               sb == sd.bytes
               par == [f |-> sd.f, bw |-> sd.bw, n |-> sd.n]
-          IN c' \in {[lvl |-> 2, o |-> "sub", s |-> par, bytes |-> [sb EXCEPT ![i] = b]] : i \in 1..Len(sb), b \in Alphabet}
+          IN c' \in {[lvl |-> 2, o |-> "sub", s |-> par, bytes |-> [sb EXCEPT ![i] = b]] : i \in MutPos(Len(sb)), b \in Alphabet}
                     \cup {[lvl |-> 2, o |-> "cut", s |-> par, bytes |-> SubSeq(sb, 1, k)] : k \in 0..(Len(sb) - 1)}
                     \cup {[lvl |-> 2, o |-> "ext", s |-> par, bytes |-> Append(sb, b)] : b \in Alphabet}
                     \cup {[lvl |-> 2, o |-> "seed", s |-> par, bytes |-> sb]}
+                    \cup (IF sd.f # "lvlp" THEN {}
+                          ELSE {[lvl |-> 2, o |-> "pre", s |-> par, bytes |-> pf \o SubSeq(sb, 5, Len(sb) - cut)] :
+                                    pf \in LenPrefixes(Len(sb) - 6), cut \in {0, 2, 3, Len(sb) - 4}})
 
 Emit == IF c.o = "alpha" THEN PrintT(ToJson([kind |-> "fuzz", o |-> "alpha", bytes |-> c.bytes, tags |-> Tags(c.bytes)]))
         ELSE LET s == c.s
